@@ -11,7 +11,7 @@ for mp in sorted(glob.glob("/verif/seeded/*/meta.json")):
     if not cr["outcome"].startswith("MISSED"):
         continue
     patch = os.path.join(os.path.dirname(mp), "patch.diff")
-    p = subprocess.run(["/verif/tools/try_mutant.sh", m["property"], patch], stdout=subprocess.PIPE,
+    p = subprocess.run(["/verif/tools/msb.sh", "try", m["property"], patch], stdout=subprocess.PIPE,
                        stderr=subprocess.STDOUT)
     out = p.stdout.decode()
     mm = re.search(r"disagreements (\d+), property failures (\d+)", out)
